@@ -7,8 +7,12 @@
     peek_token_span, cursor_pos) are built from exactly these positions, and the combinators
     build every captured / error span from lexer spans. Hypothesis on the scanner: it measures
     token ends with ColumnMetrics::end_position and never ends a token between the CR and LF of a
-    CRLF ending — proved here for the harness scanners ([scan_canonical]). *)
-From Tephra Require Import MetricsSpec MetricsFacts CLexer LexerFacts LexerCanon LexerFacts Run Peg RunCore RunMove RunBracket RunCanon LexerBuilders.
+    CRLF ending — proved here for the harness scanners ([scan_canonical]).
+    WHOLE MODEL ([C03_whole_model], RunPos): started on a lexer whose positions are canonical, every
+    combinator returns a lexer whose positions are canonical, and every position inside every returned
+    value, every returned error and every error sent to the sink is canonical - for every grammar,
+    context, store and fuel. *)
+From Tephra Require Import MetricsSpec MetricsFacts CLexer LexerFacts LexerCanon LexerFacts Run Peg RunCore RunMove RunBracket RunCanon LexerBuilders RunPos.
 
 (** the scanner maps canonical starts to canonical ends, strictly further on *)
 Theorem C03_scanner_canonical :
@@ -116,6 +120,37 @@ Theorem C03_canonical_meaning :
                      (width (tabw m) (last_line (firstn k (units m t)))).
 Proof. exact cpos_decl. Qed.
 Print Assumptions C03_canonical_meaning.
+
+(** every grammar, context, store, fuel: what comes back carries canonical positions only *)
+Theorem C03_whole_model :
+  forall m, 1 <= tabw m -> forall t, wf_text t ->
+  forall fuel g lx c st, gok m t g -> PosOK m t lx -> log_ok m t st ->
+  log_ok m t (snd (run fuel g lx c st)) /\
+  match fst (run fuel g lx c st) with
+  | ROk v lx' => PosOK m t lx' /\ val_ok m t v
+  | RErr e => err_ok m t e
+  | _ => True
+  end.
+Proof. exact run_pos. Qed.
+Print Assumptions C03_whole_model.
+
+(** what the three predicates say: every span of a value, every span / position of an error *)
+Theorem C03_whole_model_meaning :
+  forall m t,
+  (forall s v, val_ok m t (VSpanned s v) <-> (Canonical m t (sstart s) /\ Canonical m t (send s)) /\ val_ok m t v) /\
+  (forall es ts ex fo, err_ok m t (EUnexpected es ts ex fo) <->
+     (Canonical m t (sstart es) /\ Canonical m t (send es)) /\ (Canonical m t (sstart ts) /\ Canonical m t (send ts))) /\
+  (forall es p, err_ok m t (EBoundary es p) <-> (Canonical m t (sstart es) /\ Canonical m t (send es)) /\ Canonical m t p) /\
+  (forall tag e, err_ok m t (ETagged tag e) <-> err_ok m t e).
+Proof. intros m t. split; [|split; [|split]]; intros; split; intros HH; exact HH. Qed.
+Print Assumptions C03_whole_model_meaning.
+
+(** the side condition [gok] (placeholders of the internal recover form carry no foreign spans) holds
+    for grammars built from the public combinators, e.g. *)
+Example C03_gok_example :
+  forall m t, gok m t (GListB 1 (Some 3) (GSpanned (GBracketDef [KLP] (GRecoverDef (1, RBefore [KSemi]) (GText (GRepeat 1 None (GOne KA)))) [KRP] [])) KComma [KSemi]).
+Proof. intros m t. cbn. exact I. Qed.
+Print Assumptions C03_gok_example.
 
 (** Non-vacuity: "<TAB>a" with whitespace filtered, configured filter-then-tab-width 8: the first
     token is reported at column 8. *)
